@@ -136,7 +136,7 @@ def reachable():
     from dali import command
     import_all()
     seen = {}
-    for c in command.Command._commands:
+    for c in __import__('gen._registry', fromlist=['x']).all_commands()[0]:
         r = getattr(c, "response", None)
         if r is not None:
             seen[r] = seen.get(r, 0) + 1
